@@ -158,7 +158,7 @@ def c_case(c):
                core.copt(None if after is None else M.to_coq(after), "expr"), core.cstr(c["obs_after"])))
 
 
-CHECKS = ["pp_ok", "eval_defined", "eval_ok", "eval_after_ok", "norm_input_ok", "rw_ok", "changed", "wf_after", "wf_input",
+CHECKS = ["pp_ok", "eval_defined", "eval_ok", "eval_after_ok", "norm_input_ok", "rw_ok", "changed", "wf_after", "wf_input", "juxt_after",
           "guard_holds", "theorem_instance_ok"] + [f"(fun c => negb (in_class {n} c))" for n in sorted(CLASSES)]
 
 
@@ -239,6 +239,11 @@ def judge(ctx, cases, bad):
         wf_after = i not in bad["wf_after"]
         if wf_after and not c["after_parses"]:
             ctx.mismatch("wf model vs CPython parser", f"wf(rw e) holds but `{c['after_text'].strip()}` does not parse", rp)
+        if not wf_after and c["after_parses"] and (i in bad["juxt_after"]):
+            # (garbled outputs such as `"x""x"` or `[q][q]` happen to be Python: they are never wf in the model)
+            ctx.mismatch("wf model vs CPython parser", f"wf(rw e) fails but `{c['after_text'].strip()}` parses", rp)
+        if not wf_after:
+            ctx.count("rewritten_output_ill_formed(C01)")
         if (i not in bad["wf_input"]) and c["obs"] == "raise SyntaxError":
             ctx.mismatch("wf model vs CPython parser", f"wf e holds but `{c['text']}` does not parse", rp)
         if i in bad["theorem_instance_ok"]:
@@ -270,11 +275,54 @@ def judge(ctx, cases, bad):
                  sample=c["impl_changed"] and model_changed)
 
 
+def exhaustive_combine():
+    """every and/or tree of depth <= 2 over three combinable calls and one plain name (thorough tier)"""
+    atoms = [("EMeth", 0, "Startswith", [M.S("x")]), ("EMeth", 0, "Startswith", [M.S("q")]), ("EMeth", 0, "Endswith", [M.S("y")]), M.N(2)]
+    d1 = [("EBool", True, o, a, b) for o in ("BOr", "BAnd") for a in atoms for b in atoms]
+    lvl = atoms + d1
+    d2 = [("EBool", True, o, a, b) for o in ("BOr", "BAnd") for a in lvl for b in lvl if a in d1 or b in d1]
+    envs = [[(0, ("VStr", "xy")), (2, ("VBool", False))], [(0, ("VStr", "qy")), (2, ("VInt", 3))]]
+    return [{"kernel": "KCombineSW", "env": envs[i % 2], "expr": e, "origin": "exhaustive"} for i, e in enumerate(d1 + d2)]
+
+
+def parser_model_check(ctx, n):
+    """random parenthesisation flags: Coq's norm / wf against CPython's parser (no codemod involved)"""
+    rng = ctx.rng
+    cases, meta = [], []
+    for _ in range(n):
+        e = M.randomise_flags(rng, M.gen_expr(rng, rng.randint(2, 14)))
+        text = M.pp(e)
+        try:
+            parsed = M.from_source("result = " + text + "\n")
+        except SyntaxError:
+            parsed = None
+        except M.NotMiniPy as ex:      # cannot happen for printed MiniPy trees
+            ctx.mismatch("ast -> MiniPy converter", f"`{text}` is outside MiniPy: {ex}", {"source": text})
+            continue
+        cases.append("(%s, %s, %s)" % (M.to_coq(e), core.cstr(text), core.copt(None if parsed is None else M.to_coq(parsed), "expr")))
+        meta.append(text)
+        ctx.count("parser_model:" + ("parses" if parsed is not None else "syntax_error"))
+    bad = core.eval_bad_indices(ctx, "c08_parser", IMPORTS, "pcase", cases, ["p_pp_ok", "p_norm_ok", "p_wf_complete"])
+    for name, what in [("p_pp_ok", "harness printer vs Coq pp"), ("p_norm_ok", "Coq norm / wf vs CPython's parser"),
+                       ("p_wf_complete", "Coq wf rejects a text CPython parses")]:
+        for i in bad[name]:
+            ctx.mismatch(what, f"on `{meta[i]}`", {"source": meta[i]})
+    for t in meta:
+        ctx.case({"parser_model": t}, nontrivial_key=None)
+
+
 def run(ctx: core.Ctx):
+    b, a = ctx.build or {}, ctx.audit or {}
+    if not b.get("make_ok", True) or not a.get("ok", True):
+        mine = [f for f in b.get("failed", [])]
+        ctx.tie_broken.append("proof: the development no longer builds for the current table values (%s)" % (
+            "; ".join(f"{f['file']}:{f['line']}: {f['error'][:160]}" for f in mine) or a.get("error", "audit failed")[:300]))
     n = 100 if ctx.quick() else 600
     if getattr(ctx, "deep", False):
         n *= 3
     cases = load_corpus() + gen_cases(ctx, n)
+    if not ctx.quick():
+        cases += exhaustive_combine()
     observe(ctx, cases)
     try:
         bad = coq_checks(ctx, cases)
@@ -291,6 +339,10 @@ def run(ctx: core.Ctx):
                 ctx.violation("unclassified_behaviour_change", f"{KERNELS[c['kernel']]}: `{c['text']}` -> `{c['after_text'].strip()[9:]}`; "
                               f"original: {c['obs']}; rewritten: {c['obs_after']}", replay_of(c))
             ctx.case({"source": c["text"]}, nontrivial_key=c["text"] if c["impl_changed"] else None)
+    try:
+        parser_model_check(ctx, 200 if ctx.quick() else 2000)
+    except RuntimeError as ex:
+        ctx.tie_broken.append("correspondence: parser model could not be evaluated: " + str(ex)[:300])
     from harness import c08_families
     c08_families.run(ctx)
 
